@@ -454,6 +454,11 @@ fn inline(e: &E) -> Option<String> {
     })
 }
 
+thread_local! {
+    /// render `return null` as a bare `return` (set per case by the generators)
+    static BARE_RETURN: std::cell::Cell<bool> = const { std::cell::Cell::new(true) };
+}
+
 fn pad(n: usize) -> String {
     " ".repeat(n)
 }
@@ -560,6 +565,8 @@ fn expr_lines(e: &E, ind: usize) -> Option<Vec<String>> {
             r[0] = format!("{}{}", head, r[0]);
             Some(r)
         }
+        // `return null` is also written as a bare `return` (same meaning: null is asserted against `-> T`)
+        E::Ret(a) if matches!(**a, E::Lit(V::Null)) && BARE_RETURN.with(|b| b.get()) => Some(vec!["return".to_string()]),
         E::Ret(a) => Some(vec![format!("return {}", inline(a)?)]),
         E::Throw(a) => Some(vec![format!("throw {}", inline(a)?)]),
         E::Seq(..) => None,
@@ -1321,6 +1328,7 @@ const POSITIONS: &[&str] = &[
     "yield", "yield-second", "gen-arg", "gen-return-unchecked", "match-bind", "match-wild", "match-second-arm",
     "match-bind-falls-to-untyped", "catch", "catch-second", "catch-type-error-message", "nested-call-arg-and-return",
     "yield-failure-caught-typed", "throw-through-generator",
+    "return-bare", "return-bare-in-loop",
 ];
 
 /// the program that puts hint `h` on value `x` at position `pos`
@@ -1535,6 +1543,26 @@ fn template(pos: &str, h: &Hint, x: &V) -> Prog {
                 Some(3),
                 bx(seq(vec![em(11), E::TypeOf(bx(E::Var(3)))])),
             )
+        }
+        // a bare `return` returns null, which is asserted against the output hint (x is only passed along)
+        "return-bare" => {
+            funs.push(FunDef {
+                params: ps(vec![(0, None)]),
+                out: hs,
+                body: Body::Plain(seq(vec![em(1), E::Ret(bx(E::Lit(V::Null))), em(3)])),
+            });
+            seq(vec![elet(Some(5), None, bx(E::Call(bx(E::Lit(V::Fn(2))), vec![xv]))), em(2), E::TypeOf(bx(E::Var(5)))])
+        }
+        "return-bare-in-loop" => {
+            funs.push(FunDef {
+                params: ps(vec![(0, None)]),
+                out: hs,
+                body: Body::Plain(seq(vec![
+                    efor(vec![(Some(1), None)], bx(E::Lit(V::Range(0, 2))), bx(E::If(bx(E::Lt(bx(lit_i(0)), bx(E::Var(1)))), bx(E::Ret(bx(E::Lit(V::Null)))), bx(em(1))))),
+                    E::Var(0),
+                ])),
+            });
+            seq(vec![elet(Some(5), None, bx(E::Call(bx(E::Lit(V::Fn(2))), vec![xv]))), E::TypeOf(bx(E::Var(5)))])
         }
         "nested-call-arg-and-return" => {
             funs.push(FunDef { params: ps(vec![(0, hs.clone())]), out: hs.clone(), body: Body::Plain(seq(vec![em(1), E::Var(0)])) });
@@ -2196,7 +2224,7 @@ impl<'a> PGen<'a> {
                 let k = sc.ret.unwrap_or(K::Int);
                 let k = if self.wrong() { self.kind() } else { k };
                 let c = self.expr(K::Bool, sc, 1);
-                let v = self.expr(k, sc, 1);
+                let v = if k == K::Null || self.rng.chance(1, 10) { E::Lit(V::Null) } else { self.expr(k, sc, 1) };
                 let m = self.mark();
                 Some(E::If(bx(c), bx(E::Ret(bx(v))), bx(m)))
             }
@@ -2702,6 +2730,250 @@ fn cyclic_graph_grid(cx: &mut Ctx) {
     cx.rep.extra.insert("base_graph_scripts".into(), json!(n_scripts));
 }
 
+/// `@base` chains whose maps share their *data* (`map.with_meta data, meta`) while having distinct
+/// metamaps, and the reverse: they are distinct steps of the chain. Compared with the graph model
+/// (`cyc` requests; acyclic graphs here). Known finding F-C16-3 while the cycle guard compares data
+/// pointers.
+fn shared_data_chain_grid(cx: &mut Ctx) {
+    const HINTS: &[&str] = &["A", "B", "C", "Object", "Map", "Qux", "Any"];
+    let open: Vec<String> = cx.rep.known_open().iter().filter_map(|e| e["id"].as_str().map(|s| s.to_string())).collect();
+    let mut w = kvh::worker::Worker::spawn(&["--worker".to_string()]);
+    let names = ["A", "B", "C"];
+    let mut n_scripts = 0u64;
+    let mut attributed = 0u64;
+    for depth in 2..=3usize {
+        for share_mask in 0..(1u32 << depth) {
+            for ty_mask in 0..(1u32 << depth) {
+                // layer i: shares the common data map iff bit i of share_mask; has @type iff bit i of ty_mask
+                let mut script = String::from("data = {x: 1}\n");
+                let mut nodes = vec![];
+                for i in (0..depth).rev() {
+                    let ty = if ty_mask >> i & 1 == 1 { format!(", @type: '{}'", names[i]) } else { String::new() };
+                    let base = if i + 1 < depth { format!(", @base: n{}", i + 1) } else { String::new() };
+                    let meta = format!("{{@meta z: 0{}{}}}", ty, base);
+                    if share_mask >> i & 1 == 1 {
+                        script.push_str(&format!("n{} = map.with_meta data, {}\n", i, meta));
+                    } else {
+                        script.push_str(&format!("n{} = map.with_meta {{y: {}}}, {}\n", i, i, meta));
+                    }
+                }
+                for i in 0..depth {
+                    let ty = if ty_mask >> i & 1 == 1 { kvh::hex(names[i].as_bytes()) } else { "-".to_string() };
+                    let base = if i + 1 < depth { (i + 1).to_string() } else { "-".to_string() };
+                    nodes.push(format!("({} {})", ty, base));
+                }
+                let nodes = nodes.join(" ");
+                script.push_str("print repr(koto.type(n0))\n");
+                let mut reqs = vec![];
+                for h in HINTS {
+                    script.push_str(&format!("r = match n0\n  _: {} then 1\n  _ then 2\nprint repr(r)\n", h));
+                    reqs.push(format!("cyc {} ({}) 0", sx_hint(&hint(h, false)), nodes));
+                }
+                script.push_str("0\n");
+                let resps = cx.drv.batch(&reqs);
+                let mut expected = String::from("ok i0 |");
+                for (i, r) in resps.iter().enumerate() {
+                    let (ty, chk) = r.split_once(" chk=").unwrap_or(("", ""));
+                    if i == 0 {
+                        expected.push_str(&format!(" s{}", ty.strip_prefix("ty=").unwrap_or("?")));
+                    }
+                    expected.push_str(if chk == "1" { " i1" } else { " i2" });
+                }
+                cx.rep.case(&format!("shared-data chain depth {} share {:b} types {:b}", depth, share_mask, ty_mask), true);
+                cx.rep.bump("kind=base-chain-with-shared-data(worker)");
+                n_scripts += 1;
+                let reply = w.request(&kvh::hex(script.as_bytes()), std::time::Duration::from_secs(4));
+                let observed = match &reply {
+                    kvh::worker::Reply::Ok(s) => s.clone(),
+                    kvh::worker::Reply::Timeout => "does not terminate (killed after 4 s)".to_string(),
+                    kvh::worker::Reply::Died(st) => format!("the process died ({})", st),
+                };
+                if observed != expected {
+                    // cause rule of F-C16-3: at least two maps of the chain share the data map, and the
+                    // implementation answers "no match" (i2) somewhere the model finds the name further down
+                    let shared = share_mask.count_ones() >= 2;
+                    // every deviation points to a chain that was cut short: a name from further down
+                    // is missed (type name `Object`, hint A/B/C not matched), and `Object` matches instead
+                    let ot: Vec<&str> = observed.split(' ').collect();
+                    let et: Vec<&str> = expected.split(' ').collect();
+                    let only_cut_short = ot.len() == et.len()
+                        && ot.len() == 4 + HINTS.len()
+                        && (0..ot.len()).all(|i| {
+                            ot[i] == et[i]
+                                || (i == 3 && ot[i] == "sx4f626a656374")
+                                || (i >= 4 && HINTS[i - 4] != "Any" && ot[i] == "i2" && et[i] == "i1")
+                                || (i >= 4 && HINTS[i - 4] == "Object" && ot[i] == "i1" && et[i] == "i2")
+                        });
+                    if shared && only_cut_short && open.iter().any(|x| x == "F-C16-3") {
+                        attributed += 1;
+                        continue;
+                    }
+                    cx.d_fail += 1;
+                    if cx.d_fail <= 5 {
+                        cx.rep.violation(
+                            "D",
+                            "C16:base-chain-shared-data",
+                            json!({"graph": nodes, "script": script, "impl": observed, "model": expected, "hints": HINTS,
+                                   "note": "@base chain built with map.with_meta: type name / hint checks deviate from typeNameG/checkG"}),
+                        );
+                    }
+                }
+            }
+        }
+    }
+    if attributed > 0 {
+        cx.rep.known("F-C16-3", &format!("{} of {} chains with shared data are cut short by the cycle guard", attributed, n_scripts));
+    }
+    cx.rep.extra.insert("shared_data_chain_scripts".into(), json!(n_scripts));
+}
+
+/// Hints inside *map patterns* (`{k0: T}`, `{k0 as v: T}`, `{k0 as _: T}`, `{k0 as _w: T}`, `{k0}: T`)
+/// at let / for / function-argument (assert) and match (check) positions. The evaluator model has no
+/// map patterns; the oracle is the model's `check` and `typeName` (`chk` / `ty` requests): an assert
+/// position raises "expected T, found U" exactly when `check` is false (never with checks disabled),
+/// a match arm is taken exactly when `check` is true. Known finding F-C16-4: wildcard rebinds in
+/// let/for are not asserted.
+fn map_pattern_grid(cx: &mut Ctx, values: &[(String, V)], names: &[&str]) {
+    let open: Vec<String> = cx.rep.known_open().iter().filter_map(|e| e["id"].as_str().map(|s| s.to_string())).collect();
+    let forms = ["entry", "rebind", "rebind-wild", "rebind-wildn", "whole"];
+    let positions = ["let", "for", "arg", "match", "multi-let"];
+    let mut attributed = 0u64;
+    let mut n = 0u64;
+    let funs_src = render(&Prog { funs: base_funs(), main: lit_i(0) }).unwrap_or_default();
+    let funs_src = funs_src.trim_end_matches("0\n").to_string();
+    for (vn, v) in values {
+        let subject = V::Map(vec![(0, v.clone())]);
+        for name in names {
+            for opt in [false, true] {
+                let h = hint(name, opt);
+                let resp = cx.drv.batch(&[
+                    format!("chk {} {}", sx_hint(&h), sx_v(v)),
+                    format!("ty {}", sx_v(v)),
+                    format!("chk {} {}", sx_hint(&h), sx_v(&subject)),
+                ]);
+                let ty_x = resp[1].split(' ').next().and_then(|t| t.strip_prefix("ty=")).and_then(kvh::unhex).map(|b| String::from_utf8_lossy(&b).to_string()).unwrap_or_default();
+                for form in forms {
+                    let (pat, passes, found) = match form {
+                        "entry" => (format!("{{k0: {}}}", r_hint(&h)), resp[0] == "1", ty_x.clone()),
+                        "rebind" => (format!("{{k0 as v9: {}}}", r_hint(&h)), resp[0] == "1", ty_x.clone()),
+                        "rebind-wild" => (format!("{{k0 as _: {}}}", r_hint(&h)), resp[0] == "1", ty_x.clone()),
+                        "rebind-wildn" => (format!("{{k0 as _w9: {}}}", r_hint(&h)), resp[0] == "1", ty_x.clone()),
+                        _ => (format!("{{k0}}: {}", r_hint(&h)), resp[2] == "1", "Map".to_string()),
+                    };
+                    for pos in positions {
+                        let sub = r_v(&subject);
+                        let body = match pos {
+                            "let" => format!("print(repr(1))\nlet {} = {}\nprint(repr(2))\n7\n", pat, sub),
+                            "multi-let" => format!("print(repr(1))\nlet v5, {} = [3, {}]\nprint(repr(v5))\n7\n", pat, sub),
+                            "for" => format!("for {} in [{}, {}]\n  print(repr(1))\n7\n", pat, sub, sub),
+                            "arg" => format!("g = |v5, {}|\n  print(repr(1))\n  v5\nprint(repr(0))\ng(7, {})\n", pat, sub),
+                            _ => format!("match {}\n  {} then\n    print(repr(10))\n    7\n  else\n    print(repr(11))\n    8\n", sub, pat),
+                        };
+                        let script = format!("{}{}", funs_src, body);
+                        let (exp_on, exp_on_out, exp_off, exp_off_out) = match pos {
+                            "match" => {
+                                let (r, o) = if passes { ("ok i7", "i10") } else { ("ok i8", "i11") };
+                                (r.to_string(), o, r.to_string(), o)
+                            }
+                            _ => {
+                                let ok_out = match pos {
+                                    "let" => "i1 i2",
+                                    "multi-let" => "i1 i3",
+                                    "for" => "i1 i1",
+                                    _ => "i0 i1",
+                                };
+                                let fail_out = match pos {
+                                    "let" | "multi-let" => "i1",
+                                    "for" => "-",
+                                    _ => "i0",
+                                };
+                                if passes {
+                                    ("ok i7".to_string(), ok_out, "ok i7".to_string(), ok_out)
+                                } else {
+                                    (format!("err expected {}, found {}", r_hint(&h), found), fail_out, "ok i7".to_string(), ok_out)
+                                }
+                            }
+                        };
+                        let key = format!("mappat {} {} {}{} {}", pos, form, name, if opt { "?" } else { "" }, vn);
+                        cx.rep.case(&key, true);
+                        cx.rep.bump("kind=map-pattern-hints");
+                        n += 1;
+                        let show = |o: &Out| match o {
+                            Out::Ok(c) => format!("ok {}", c),
+                            Out::Err(l) => format!("err {}", l),
+                            other => format!("{:?}", other),
+                        };
+                        let (on, on_lines, _) = run_koto(&script, true);
+                        let (off, off_lines, _) = run_koto(&script, false);
+                        let got = (show(&on), trace_text(&on_lines), show(&off), trace_text(&off_lines));
+                        if got.0 == exp_on && got.1 == exp_on_out && got.2 == exp_off && got.3 == exp_off_out {
+                            continue;
+                        }
+                        // cause rule of F-C16-4: let / for (and a let inside a multi-assignment), wildcard
+                        // rebind, the hint does not hold, and the implementation simply goes on
+                        let f4 = matches!(pos, "let" | "for" | "multi-let")
+                            && matches!(form, "rebind-wild" | "rebind-wildn")
+                            && !passes
+                            && got.0 == "ok i7"
+                            && got.2 == exp_off
+                            && got.3 == exp_off_out;
+                        if f4 && open.iter().any(|x| x == "F-C16-4") {
+                            attributed += 1;
+                            continue;
+                        }
+                        cx.d_fail += 1;
+                        if cx.d_fail <= 5 {
+                            cx.rep.violation(
+                                "D",
+                                "C16:map-pattern-hint",
+                                json!({"case": key, "script": script, "expected_on": [exp_on, exp_on_out], "expected_off": [exp_off, exp_off_out],
+                                       "impl_on": [got.0, got.1], "impl_off": [got.2, got.3],
+                                       "note": "a hint inside a map pattern must be asserted (let/for/argument) or checked (match) against the entry's value; oracle: check/typeName of Model/Types.lean"}),
+                            );
+                        }
+                    }
+                }
+            }
+        }
+    }
+    if attributed > 0 {
+        cx.rep.known("F-C16-4", &format!("{} of {} map-pattern cases: the hint of a wildcard rebind in let/for is not asserted", attributed, n));
+    }
+    cx.rep.extra.insert("map_pattern_cases".into(), json!(n));
+}
+
+/// `CompileArgs` is a builder: the switches must be independent. The exports of a script compiled
+/// with `export_top_level_ids(true)` are the same whichever side of it `enable_type_checks(b)` is set,
+/// and contain the script's top-level ids.
+fn compile_args_independence(cx: &mut Ctx) {
+    let script = "let v1: Number = 1\nv2 = 'a'\nlet v3: String?, _: Number = null, 2\nfor v4: Number in 0..2\n  v4\nv1\n";
+    for checks in [true, false] {
+        let exports = |order: u8| -> String {
+            let cap = Capture::default();
+            let mut koto = make_koto(&cap);
+            let args = match order {
+                0 => CompileArgs::new(script).export_top_level_ids(true).enable_type_checks(checks),
+                _ => CompileArgs::new(script).enable_type_checks(checks).export_top_level_ids(true),
+            };
+            let r = koto.compile_and_run(args).map(|v| format!("ok {}", canon(&v))).unwrap_or_else(|e| format!("err {}", e));
+            format!("{} | {}", r, canon(&KValue::Map(koto.exports().clone())))
+        };
+        cx.rep.case(&format!("compile-args order checks={}", checks), true);
+        cx.rep.bump("kind=compile-args-independence");
+        let (a, b) = (exports(0), exports(1));
+        let expected = "ok i1 | (m (sx7631 i1) (sx7632 sx61) (sx7633 null) (sx7634 null))";
+        if a != b || a != expected {
+            cx.d_fail += 1;
+            cx.rep.violation(
+                "D",
+                "C16:compile-args-independence",
+                json!({"script": script, "enable_type_checks": checks, "export_then_checks": a, "checks_then_export": b, "expected": expected,
+                       "note": "CompileArgs::enable_type_checks must not touch any other compiler setting (here: export_top_level_ids)"}),
+            );
+        }
+    }
+}
+
 fn main() {
     if std::env::args().any(|a| a == "--worker") {
         worker_main();
@@ -2809,9 +3081,25 @@ fn main() {
         }
     }
 
+    // witnesses of listed findings that are plain scripts with an expected error line
+    for e in cx.rep.known_open() {
+        if e["id"].as_str() == Some("F-C16-5") {
+            if let Some(w) = e["witness"].as_str() {
+                let (out, _, _) = run_koto(w, true);
+                if out == Out::Err("expected Iterable, found Foo".into()) {
+                    cx.rep.known("F-C16-5", "`Iterable` still rejects a map with a metamap that `for` iterates");
+                } else {
+                    cx.rep.note(format!("F-C16-5: witness no longer fails ({:?})", out));
+                }
+            }
+        }
+    }
+
     // 0b. cyclic @base chains (worker child)
     cyclic_base_cases(&mut cx);
     cyclic_graph_grid(&mut cx);
+    shared_data_chain_grid(&mut cx);
+    compile_args_independence(&mut cx);
 
     // 1. unit: type names and predicates
     let mut values = core_values();
@@ -2861,6 +3149,7 @@ fn main() {
         }
     }
     cx.flush();
+    map_pattern_grid(&mut cx, &form_values, &names);
     // deeper chains on the two cheapest positions (one assert, one check) with the names that matter
     let chain_names = ["Foo", "Bar", "Baz", "Object", "Map", "Number", "String", "Any", "Indexable", "Callable"];
     for pos in ["let", "match-bind", "catch", "arg"] {
